@@ -2,6 +2,7 @@ SPECIFICATION Spec
 CONSTANTS
   MaxSteps = 5
 INVARIANT BalanceIsSumOfKeys
+INVARIANT BalanceIsSumOfAccounts
 INVARIANT NoSpentListed
 INVARIANT OneCoinPerOutpoint
 INVARIANT NoDoubleSpend
